@@ -87,8 +87,9 @@ def verify(pid):
 
 if __name__ == "__main__":
     ids = sys.argv[1:]
-    if ids and ids[0] in ("--wave2", "--wave3"):
-        ROOT, TAG = ("/tmp/w2-", "w2") if ids[0] == "--wave2" else ("/tmp/w3-", "w3")
+    if ids and ids[0] in ("--wave2", "--wave3", "--wave4", "--wave5"):
+        n = ids[0][-1]
+        ROOT, TAG = "/tmp/w%s-" % n, "w%s" % n
         BASE = subprocess.run("git -C /repo rev-parse --short HEAD", shell=True, capture_output=True, text=True).stdout.strip()
         ids = ids[1:]
     with ThreadPoolExecutor(8) as ex:
